@@ -72,11 +72,10 @@ def codegen(overlay, harness_names, log_path, extra_args=()):
     if missing:
         raise KaniError("harnesses not generated: %s" % ", ".join(missing))
     stubs_log = []
-    with open(log_path) as fh:
-        for line in fh:
-            if line.lstrip().startswith("- Stub:"):
-                stubs_log.append(line.strip())
-    return metas, dt, stubs_log
+    for m in metas.values():
+        for s in m.get("attributes", {}).get("stubs", []) or []:
+            stubs_log.append("%s -> %s" % (s["original"].replace(" ", ""), s["replacement"].replace(" ", "")))
+    return metas, dt, sorted(set(stubs_log))
 
 
 def _run(cmd, log, timeout=600):
@@ -162,6 +161,7 @@ def build_unwindset(goto, meta, spec, recursion):
 
 
 _mem_lock = threading.Lock()
+_rss_table = {}
 
 
 class CbmcResult:
@@ -201,7 +201,18 @@ def run_cbmc(goto, unwind, unwindset, timeout_s, mem_gb, out_json, trace=False, 
                 res.max_rss_gb = max(res.max_rss_gb, rss)
             except Exception:
                 rss = 0
+            try:
+                with open("/proc/meminfo") as fh:
+                    avail = [int(l.split()[1]) for l in fh if l.startswith("MemAvailable")][0] / 2**20
+            except Exception:
+                avail = 99
+            with _mem_lock:
+                _rss_table[p.pid] = rss
+                biggest = max(_rss_table.values()) if _rss_table else 0
             if rss > mem_gb:
+                killed = "oom"
+            elif avail < 4 and rss >= biggest and rss > 4:
+                # machine-wide guard: the largest cbmc gives way before the kernel OOM killer picks at random
                 killed = "oom"
             elif time.time() - t0 > timeout_s:
                 killed = "timeout"
@@ -213,6 +224,8 @@ def run_cbmc(goto, unwind, unwindset, timeout_s, mem_gb, out_json, trace=False, 
                 p.wait()
                 break
     res.wall = time.time() - t0
+    with _mem_lock:
+        _rss_table.pop(p.pid, None)
     if killed:
         res.status = killed
         return res
